@@ -723,7 +723,7 @@ LOOKUP_CODE = re.compile(r'parse_c_type\.c|search_sorted|search_in_')
 
 
 def judge(ctx, setup, case, obs):
-    if isinstance(obs, dict) and obs.get('_san') and '_crash' not in obs:
+    if isinstance(obs, dict) and obs.get('_san'):
         # reports located in the lookup code decide; others (e.g. the decoding of the ABI
         # module's tables at import) are outside the statement and only recorded
         for kind, frame, block in core.split_reports(obs.pop('_san')):
